@@ -156,3 +156,26 @@ def _lpa_log(S_, kind):
 
 
 c.exit_check(_lpa_log)
+
+
+# ---------------------------------------------------------------- PythonPlugin.log_tracepoint (the shipped tracepoint logger)
+c = contract("api/plugin/python.py", "PythonPlugin.log_tracepoint", ["C16"])
+c.param("self", OBJ("PythonPlugin", inv=False)).param("log_msg", STR).param("tp_id", STR).param("ctx_id", STR)
+c.result = NONE
+c.modifies = lambda S_: []
+
+
+def _pylog(S_, kind):
+    """the rendered message is logged as it is - it is never used as a format string for further arguments - followed by the
+    context id and the tracepoint id, each in its own place"""
+    if kind != "return":
+        return []
+    infos = S_.calls("deep.logging.info")
+    want = Val.VStr(z3.Concat(sv(S_.a.log_msg), z3.StringVal(" ctx="), sv(S_.a.ctx_id), z3.StringVal(" tracepoint="),
+                              sv(S_.a.tp_id)))
+    return [("message-logged-verbatim-with-context-and-tracepoint-ids", "LOG", And(
+        z3.BoolVal(len(infos) == 1 and len(infos[0].args) == 1 and not infos[0].kwargs),
+        infos[0].args[0] == want if infos and infos[0].args else z3.BoolVal(False)), None)]
+
+
+c.exit_check(_pylog)
